@@ -230,18 +230,23 @@ def write (find : Finder) (t : Fmt) (maps : Option Maps) (c : Full) : Option Dis
              v1feat := toV1 {} classes feats, hintData := some (toHintData c.parts.hint) }
     | _ => none
 
+/-- the layers a save leaves as lazily loaded as they were: below format 3 only the default layer
+of a plain in-place save, in format 3 every layer of a plain in-place save -/
+def keepLazy (m : Mem) (t : Fmt) (saveAs : Bool) (l : MLayer) : Bool :=
+  if t.below3 then (l.name = m.defaultName && !saveAs) else !saveAs
+
+def preloadLayer (m : Mem) (c : Full) (t : Fmt) (saveAs : Bool) (l : MLayer) : MLayer :=
+  if keepLazy m t saveAs l then l
+  else match c.layers.find? (fun x => x.name = l.name) with
+    | some x => ⟨l.name, loaded x.glyphs, l.info⟩
+    | none => l
+
 /-- what `Font.save` reads before it writes: for a target below format 3 the layers, images and
 data that format cannot store (they would be out of reach once the font is bound to the new UFO);
 on a save-as every layer that is written (`Layer.save` loads all glyphs) -/
 def preload (m : Mem) (c : Full) (t : Fmt) (saveAs : Bool) : Mem :=
-  let keep (l : MLayer) : Bool :=
-    if t.below3 then (l.name = m.defaultName && !saveAs) else !saveAs
   { m with
-    layers := m.layers.map (fun l =>
-      if keep l then l
-      else match c.layers.find? (fun x => x.name = l.name) with
-        | some x => ⟨l.name, loaded x.glyphs, l.info⟩
-        | none => l),
+    layers := m.layers.map (preloadLayer m c t saveAs),
     images := if t.below3 then loaded c.images else m.images,
     data := if t.below3 then loaded c.data else m.data }
 
